@@ -25,7 +25,7 @@ func C08BigCases(tier string) int {
 // RunC08Big runs one case.
 func RunC08Big(w *core.WorkerCtx, k int) *core.CaseResult {
 	r := core.NewRng(w.Seed, 0xC08B, uint64(k))
-	n := []int{9000, 12000, 7000, 16000}[k%4] + r.Intn(500)
+	n := []int{9000, 12000, 10000, 16000}[k%4] + r.Intn(500)
 	big := 1 - k%2 // position of the big shard
 	res := &core.CaseResult{Sig: fmt.Sprintf("closed-loop/big-shard/%d/pos%d", n, big), Execs: 1}
 	spec := Spec{MaxHead: 0, MaxProc: 1 << 40, Min: 2, Max: 2, Idle: "0", InitShards: 2, KeepPVC: true}
@@ -48,8 +48,8 @@ func RunC08Big(w *core.WorkerCtx, k int) *core.CaseResult {
 		resp.Body.Close()
 	}
 	res.AddSet("big_shard_status_answer_bytes", fmt.Sprint(size/100000*100000))
-	if size < 3<<19 {
-		res.Inconcl = fmt.Sprintf("the status answer of %d targets has only %d bytes (harness: wanted more than 1.5 MiB)", n, size)
+	if size < 5<<18 {
+		res.Inconcl = fmt.Sprintf("the status answer of %d targets has only %d bytes (harness: wanted more than 1.25 MiB)", n, size)
 		return res
 	}
 	var trace []string
